@@ -250,6 +250,18 @@ class Driver:
             st.BindingMdibVersion, st.UnbindingMdibVersion = rng.randrange(0, 5), rng.randrange(0, 5)
             st.BindingStartTime, st.BindingEndTime = 1000.0, 2000.0
             return self.ops[d], [st], False
+        if name == 'new_pre':
+            # a pre-associated state (ContextAssociation=Pre) is created; the next template associates exactly that state
+            self.pre_descr = d
+            return self.ops[d], [self.proposal(d, None, A.PRE_ASSOCIATION)], False
+        if name == 'assoc_last_pre':
+            d = getattr(self, 'pre_descr', None)
+            if d is None:
+                return None
+            cand = sorted(h for h, a in self.states_of(d).items() if a == A.PRE_ASSOCIATION)
+            if not cand:
+                return None
+            return self.ops[d], [self.proposal(d, cand[-1], A.ASSOCIATED)], False
         if name == 'new_not_assoc':
             return self.ops[d], [self.proposal(d, None, rng.choice([A.NO_ASSOCIATION, A.PRE_ASSOCIATION, A.DISASSOCIATED]))], False
         if name == 'update_assoc':
@@ -482,7 +494,7 @@ class Driver:
         return {'mech': 'transaction', 'sub': 'mk_context_state_existing_handle', 'result': outcome}
 
 
-TEMPLATES = ['new_assoc', 'new_assoc', 'new_assoc_copied', 'new_not_assoc', 'update_assoc', 'update_old', 'disassociate', 'reassociate_old', 'reassociate_old',
+TEMPLATES = ['new_assoc', 'new_pre', 'assoc_last_pre', 'new_assoc', 'new_assoc_copied', 'new_not_assoc', 'update_assoc', 'update_old', 'disassociate', 'reassociate_old', 'reassociate_old',
              'multi_one_descr', 'multi_one_descr', 'multi_descr', 'multi_descr', 'reject_two_assoc', 'reject_unknown_state',
              'reject_state_of_other_descriptor', 'reject_unknown_descriptor', 'assoc_to_no_or_pre']
 
@@ -564,7 +576,7 @@ def w_sequences(ctx: core.Ctx, arg):
 
 def run(ctx: core.Ctx):
     ctx.rule = ('seeded action sequences on 4 widened sample MDIBs (patient, location(s), 2+ ensemble descriptors, one SetContextState operation '
-                'each; sync / async subscription manager): set_location (3 ways) / SetContextState through the consumer client (18 templates) / '
+                'each; sync / async subscription manager): set_location (3 ways) / SetContextState through the consumer client (20 templates) / '
                 'context_state_transaction with disassociate_all + mk_context_state / entity interface with xtra.disassociate_all / refused handle '
                 'reuse; one case = 15 consecutive actions; distinct = sequence of (mechanism, template, (state type, new/old, proposed association) '
                 'per proposal, invocation result, #context states per commit); non-trivial = at least one commit touched context states')
